@@ -166,3 +166,174 @@ Theorem C06_small_limit_refused : forall c w a n, c_opened c = true -> 12 < c_ma
   ctl_read a n (c, w) = (Err CE_INVALID_DEVICE, (c, w)).
 Proof. exact small_limit_read. Qed.
 Print Assumptions C06_small_limit_refused.
+
+(* ================================================================================================================
+   USB layer: ControlChannel / ReceiveChannel of device/src/u3v/channel.rs (open / close / is_opened / send / recv /
+   set_halt / clear_halt, Drop) and Device::{control,event,stream}_channel, over the rusb calls they make and an
+   abstract libusb (any plan of scripted answers, any history of operations).  Model: model/UsbChannel.v;
+   proofs: proofs/P_C06u.v.  [answer w]: the scripted answer the next libusb call gets; [after u w]: the world
+   after the call [u] was logged and answered.
+   ================================================================================================================ *)
+From Cam Require Import UsbEnum UsbDescLayout UsbChannel P_C07u P_C06u.
+
+(* send: exactly ONE libusb_bulk_transfer, on the interface's bulk-out endpoint, with the caller's bytes, their
+   length and the timeout in milliseconds (as u32); its result is libusb's answer through rusb's three-way match;
+   the channel itself is not touched *)
+Theorem C06_chan_send_exact : forall c data tmo w, Z.land (c_out c) 0x80 = 0 ->
+  ch_send c data tmo w =
+  (match answer w with Some r => bulk_result (r_code r) (r_n r) | None => Ok (zlen data) end,
+   after (UBulk (c_out c) (zlen data) (tmo mod 2 ^ 32) (Some data)) w).
+Proof. exact send_exact. Qed.
+Print Assumptions C06_chan_send_exact.
+
+(* recv: exactly ONE bulk transfer on the bulk-in endpoint with the caller's buffer length and timeout; Ok carries
+   libusb's count and the buffer holds the device's bytes at the front, the rest untouched *)
+Theorem C06_chan_recv_exact : forall c len tmo w, Z.land (c_in c) 0x80 = 0x80 ->
+  ch_recv c len tmo w =
+  (match answer w with
+   | Some r => let? n := bulk_result (r_code r) (r_n r) in Ok (n, filled len (r_data r))
+   | None => Ok (len, filled len (pattern len))
+   end,
+   after (UBulk (c_in c) len (tmo mod 2 ^ 32) None) w).
+Proof. exact recv_exact. Qed.
+Print Assumptions C06_chan_recv_exact.
+
+Theorem C06_chan_buffer : forall len data,
+  (0 <= len -> zlen (filled len data) = len) /\
+  (zlen data <= len -> firstn (length data) (filled len data) = data).
+Proof. exact buffer_spec. Qed.
+Print Assumptions C06_chan_buffer.
+
+(* libusb's count or error comes back unchanged: code 0 -> Ok count; TIMEOUT / INTERRUPTED with a positive count ->
+   Ok count (rusb), without -> that error; every other code -> its error kind *)
+Theorem C06_chan_count_or_error : forall code n,
+  (code = 0 -> bulk_result code n = Ok n) /\
+  (code <> 0 -> code <> -7 -> code <> -10 -> bulk_result code n = Err (usb_kind code)) /\
+  ((code = -7 \/ code = -10) -> 0 < n -> bulk_result code n = Ok n) /\
+  ((code = -7 \/ code = -10) -> n <= 0 -> bulk_result code n = Err (usb_kind code)).
+Proof. exact bulk_result_spec. Qed.
+Print Assumptions C06_chan_count_or_error.
+
+(* an endpoint of the wrong direction never reaches libusb (rusb's guard): InvalidParam, nothing logged *)
+Theorem C06_chan_wrong_direction : forall c data len tmo w,
+  (Z.land (c_out c) 0x80 <> 0 -> ch_send c data tmo w = (Err UE_INVALID_PARAM, w)) /\
+  (Z.land (c_in c) 0x80 <> 0x80 -> ch_recv c len tmo w = (Err UE_INVALID_PARAM, w)).
+Proof. exact wrong_direction. Qed.
+Print Assumptions C06_chan_wrong_direction.
+
+(* open: idempotent -- on an open channel nothing is called; otherwise exactly one claim of exactly the interface
+   number: success opens, an error leaves the channel as it was *)
+Theorem C06_chan_open : forall c w,
+  ch_open c w =
+  if c_opened c then (Ok tt, (c, w))
+  else if code_of (answer w) =? 0
+       then (Ok tt, (set_state c true true, after (UClaim (c_iface c)) w))
+       else (Err (usb_kind (code_of (answer w))), (c, after (UClaim (c_iface c)) w)).
+Proof. exact open_spec. Qed.
+Print Assumptions C06_chan_open.
+
+(* close: on a closed channel nothing is called; otherwise exactly one release of the interface: success closes,
+   an error leaves the channel open (both channel types) *)
+Theorem C06_chan_close : forall c w,
+  ch_close c w =
+  if c_opened c then
+    if code_of (answer w) =? 0
+    then (Ok tt, (set_state c false false, after (URelease (c_iface c)) w))
+    else (Err (usb_kind (code_of (answer w))), (c, after (URelease (c_iface c)) w))
+  else (Ok tt, (c, w)).
+Proof. exact close_spec. Qed.
+Print Assumptions C06_chan_close.
+
+(* the guard, stated: there is none -- send, recv, set_halt and clear_halt do not look at is_opened *)
+Theorem C06_chan_no_open_guard : forall c o cl,
+  (forall data tmo w, ch_send (set_state c o cl) data tmo w = ch_send c data tmo w) /\
+  (forall len tmo w, ch_recv (set_state c o cl) len tmo w = ch_recv c len tmo w) /\
+  (forall tmo w, ch_set_halt (set_state c o cl) tmo w = ch_set_halt c tmo w) /\
+  (forall w, ch_clear_halt (set_state c o cl) w = ch_clear_halt c w).
+Proof. exact no_open_guard. Qed.
+Print Assumptions C06_chan_no_open_guard.
+
+(* set_halt: SET_FEATURE(ENDPOINT_HALT) control transfers (type 0x02, request 0x03, value 0, no data) to the IN
+   endpoint, then -- control channel only, and only when the first succeeded -- to the OUT endpoint; clear_halt likewise *)
+Theorem C06_chan_halt : forall c tmo w,
+  w_log (snd (ch_set_halt c tmo w)) =
+    w_log w ++ [halt_call (c_in c) tmo] ++
+    match c_kind c with
+    | KControl => if control_res (answer w) <? 0 then [] else [halt_call (c_out c) tmo]
+    | KReceive => []
+    end /\
+  w_log (snd (ch_clear_halt c w)) =
+    w_log w ++ [UClearHalt (c_in c)] ++
+    match c_kind c with
+    | KControl => if code_of (answer w) =? 0 then [UClearHalt (c_out c)] else []
+    | KReceive => []
+    end.
+Proof. exact halt_logs. Qed.
+Print Assumptions C06_chan_halt.
+
+(* dropping a channel releases the interface when (and only when) it is held, then closes the handle *)
+Theorem C06_chan_drop : forall c w,
+  w_log (ch_drop c w) = w_log w ++ (if c_claimed c then [URelease (c_iface c); UClose] else [UClose]).
+Proof. exact drop_log. Qed.
+Print Assumptions C06_chan_drop.
+
+(* after an error the channel is unchanged, for every operation; only open / close / re-creation ever change it *)
+Theorem C06_chan_error_keeps_state : forall cd o c w e rest, o <> ORecreate ->
+  fst (step cd o (Some c, w)) = 1 :: e :: rest -> fst (snd (step cd o (Some c, w))) = Some c.
+Proof. exact step_error_keeps. Qed.
+Print Assumptions C06_chan_error_keeps_state.
+
+Theorem C06_chan_only_open_close_change : forall cd o c w,
+  match o with OOpen | OClose | ORecreate => True | _ => fst (snd (step cd o (Some c, w))) = Some c end.
+Proof. exact step_keeps_channel. Qed.
+Print Assumptions C06_chan_only_open_close_change.
+
+(* for EVERY history of operations and EVERY plan of libusb answers: the channel keeps the interface description it
+   was made from and is_opened agrees with what is claimed through its handle ... *)
+Theorem C06_chan_history_invariant : forall cd plan os,
+  chan_inv cd (fst (snd (steps cd os (snd (create cd (mkWorld plan [])))))).
+Proof. exact history_inv. Qed.
+Print Assumptions C06_chan_history_invariant.
+
+(* ... and every libusb call of the history (the final drop included) names exactly the channel's own interface
+   number / endpoints: claims and releases the interface, IN transfers on bulk-in, OUT transfers on bulk-out
+   (control channel only), halts on its own endpoints *)
+Theorem C06_chan_history_calls : forall cd plan os,
+  let s := snd (steps cd os (snd (create cd (mkWorld plan [])))) in
+  log_ok cd (drop_opt (fst s) (snd s)).
+Proof. exact history_calls_ok. Qed.
+Print Assumptions C06_chan_history_calls.
+
+(* no operation panics *)
+Theorem C06_chan_total : forall c w, fst (ch_open c w) <> Panic /\ fst (ch_close c w) <> Panic.
+Proof. exact open_close_total. Qed.
+Print Assumptions C06_chan_total.
+
+(* the channels of an ENUMERATED camera (props/C07.v: accept_spec): the control channel is made from the control
+   interface's number and endpoints, whose directions pass rusb's guards, so send and recv always reach libusb on
+   exactly these endpoints; receive channels are made from the event / stream interface *)
+Theorem C06_chan_enumerated_control : forall d r cd c data len tmo w, accept_spec d = Some r -> cdesc_of r 0 = Some cd ->
+  c_in c = cd_in cd -> c_out c = cd_out cd ->
+  (cd_kind cd = KControl /\ (cd_iface cd, cd_in cd, cd_out cd) = r_ctrl r) /\
+  w_log (snd (ch_send c data tmo w)) = w_log w ++ [UBulk (cd_out cd) (zlen data) (tmo mod 2 ^ 32) (Some data)] /\
+  w_log (snd (ch_recv c len tmo w)) = w_log w ++ [UBulk (cd_in cd) len (tmo mod 2 ^ 32) None].
+Proof. exact enumerated_control. Qed.
+Print Assumptions C06_chan_enumerated_control.
+
+Theorem C06_chan_enumerated_receive : forall d r which cd, accept_spec d = Some r -> which <> 0 -> cdesc_of r which = Some cd ->
+  cd_kind cd = KReceive /\ Some (cd_iface cd, cd_in cd) = (if which =? 1 then r_event r else r_stream r) /\
+  Z.land (cd_in cd) 0x80 <> 0.
+Proof. exact enumerated_receive_channel. Qed.
+Print Assumptions C06_chan_enumerated_receive.
+
+(* non-vacuity: a history with a failing claim, an idempotent open, a send, a timed-out and a short receive with a
+   timeout beyond 32 bits, a failing release and the final drop, evaluated in the kernel *)
+Theorem C06_chan_example :
+  run_history ex_cd
+    [mkResp 0 0 []; mkResp (-6) 0 []; mkResp 0 0 []; mkResp 0 3 []; mkResp (-7) 0 []; mkResp 0 2 [170; 187]; mkResp (-4) 0 []]
+    [OOpen; OIsOpened; OOpen; OSend [1; 2; 3] 500; ORecv 4 (2 ^ 32 + 5); ORecv 4 100; OClose; OIsOpened] =
+  [0] ++ [1; 5] ++ [0] ++ [0] ++ [0; 3] ++ [1; 6] ++ [0; 2; 4; 170; 187; 205; 205] ++ [1; 3] ++ [1] ++ [-8; 1; -7] ++
+  [3; 0] ++ [8; 0; 0] ++ [8; 0; 0] ++ [11; 0; 1; 3; 500; 3; 1; 2; 3] ++ [11; 0; 129; 4; 5] ++ [11; 0; 129; 4; 100] ++
+  [9; 0; 0] ++ [9; 0; 0] ++ [7; 0].
+Proof. exact example_history. Qed.
+Print Assumptions C06_chan_example.
